@@ -38,3 +38,6 @@ def collect(h):
     v2i = immutable_schema.schema_from_version(2)
     h.bool("imm_V1_CLEARTEXT", isinstance(v1i.lease_serializer, lease_schema.CleartextLeaseSerializer), "v1 immutable containers store cleartext lease secrets")
     h.bool("imm_V2_HASHED", isinstance(v2i.lease_serializer, lease_schema.HashedLeaseSerializer), "v2 immutable containers store hashed lease secrets")
+    # (C22/C28/C29, immutable containers) header bytes produced by the live schema object
+    h.bytes("imm_HEADER_SAMPLE_10", immutable_schema.NEWEST_SCHEMA_VERSION.header(10), "immutable_schema.NEWEST_SCHEMA_VERSION.header(10)")
+    h.bytes("imm_HEADER_SAMPLE_BIG", immutable_schema.NEWEST_SCHEMA_VERSION.header(2 ** 32 + 5), "immutable_schema.NEWEST_SCHEMA_VERSION.header(2**32+5): length field saturates")
